@@ -32,7 +32,10 @@ Record calg := {
   ca_to_cov : Z -> Z;             (* cell.tag = "table:covered-table-cell" *)
   ca_to_plain : Z -> Z;           (* cell.tag = "table:table-cell" *)
   ca_add_span : Z -> Z -> Z -> Z; (* set_attribute(number-columns-spanned, str c); set_attribute(number-rows-spanned, str r) *)
-  ca_rm_span : Z -> Z             (* del_attribute of both *)
+  ca_rm_span : Z -> Z;            (* del_attribute of both *)
+  ca_join : list Z -> Z           (* merge=True: the content of Cell(v) where v is the one collected value, or " ".join(str(v)
+                                     for the truthy ones) when there are several; argument = the contents of the
+                                     contributing cells in the order the code collects them *)
 }.
 
 (* plain list helper: drop the longest suffix whose elements all satisfy p (reversed(...) loop with break) *)
@@ -192,6 +195,10 @@ Definition merge_cells (mid : Z) (cells : list (list cell)) : list (list cell) :
     | other => other
     end
   else cleared.
+(* the contents whose values merge=True collects, in the order of the two nested loops (row by row, left to right), and
+   the content the first cell receives *)
+Definition join_ids (cells : list (list cell)) : list Z := map (fun c : cell => fst c) (filter contributes (concat cells)).
+Definition merge_mid (cells : list (list cell)) : Z := ca_join a (join_ids cells).
 (* Table.set_span(area=(x,y,z,t), merge): returns the new state and the boolean the call returns *)
 Definition t_set_span (x y z t : Z) (merge : bool) (mid : Z) (st : tstate) : option (tstate * bool) :=
   if (x =? z) && (y =? t) then Some (st, false)
@@ -245,7 +252,7 @@ Definition x_step (fixed : bool) (st : tstate) (o : xop) : option (tstate * bool
   | XTransposeArea x y z t => option_map (fun s => (s, true)) (t_transpose_area x y z t st)
   | XRstrip aggr => Some (t_rstrip aggr st, true)
   | XOptimize => option_map (fun s => (s, true)) (t_optimize_width fixed st)
-  | XSetSpan x y z t m mid => t_set_span x y z t m mid st
+  | XSetSpan x y z t m mid => t_set_span x y z t m (if m then merge_mid (area_cells x y z t st) else mid) st
   | XDelSpan x y => t_del_span x y st
   | XCore o => option_map (fun s => (s, true)) (t_step st o)
   end.
@@ -260,12 +267,13 @@ End Model.
    info rows  (id, (covered, span attribute present, columns-spanned, rows-spanned, valued, hasval, nonblank, base,
                     id as covered, id as plain cell, id without span attributes))
    span rows  ((id, c, r), id with the two attributes set to c and r)
+   join rows  (contents of the contributing cells in order, content of the merged first cell)
    an id without a row is read as a plain valued cell that no edit changes (the checker reports such a lookup) *)
 Definition cinfo := (bool * bool * option Z * option Z * bool * bool * bool * Z * Z * Z * Z)%type.
 Definition ci_default (v : Z) : cinfo := (false, false, None, None, negb (v =? 0), false, false, v, v, v, v).
 Definition ci_find (tab : list (Z * cinfo)) (v : Z) : cinfo :=
   match find (fun p => fst p =? v) tab with Some p => snd p | None => ci_default v end.
-Definition alg_of (tab : list (Z * cinfo)) (stab : list (Z * Z * Z * Z)) : calg :=
+Definition alg_of (tab : list (Z * cinfo)) (stab : list (Z * Z * Z * Z)) (jtab : list (list Z * Z)) : calg :=
   let get v := ci_find tab v in
   {| ca_cov := fun v => let '(c, _, _, _, _, _, _, _, _, _, _) := get v in c;
      ca_span := fun v => let '(_, s, _, _, _, _, _, _, _, _, _) := get v in s;
@@ -280,4 +288,5 @@ Definition alg_of (tab : list (Z * cinfo)) (stab : list (Z * Z * Z * Z)) : calg 
      ca_rm_span := fun v => let '(_, _, _, _, _, _, _, _, _, _, x) := get v in x;
      ca_add_span := fun v c r =>
        match find (fun p : Z * Z * Z * Z => let '(v', c', r', _) := p in (v' =? v) && (c' =? c) && (r' =? r)) stab with
-       | Some (_, _, _, w) => w | None => -1 end |}.
+       | Some (_, _, _, w) => w | None => -1 end;
+     ca_join := fun l => match find (fun p : list Z * Z => zl_eqb (fst p) l) jtab with Some p => snd p | None => -1 end |}.
